@@ -18,12 +18,15 @@ Print Assumptions c03_compiler_sees_only_the_erasure.
 
 (* src/compiler and src/interpreter are such a compiler: regenerated on every
    run, these are ALL the places where they mention type-only syntax - the two
-   wrappers compiled as their operand, type-only statements compiled to
+   wrappers compiled as their operand (and looked through when a call's
+   receiver is determined), type-only statements compiled to
    nothing and skipped by hoisting, and AST reconstructions that copy or blank
    the fields. Nothing reads a type to decide what to emit. *)
 Theorem c03_every_mention_of_type_syntax_ignores_it :
   type_syntax_uses =
-  ["compiler/compile_expr.rs::compile_class_expression_with_name: type_parameters: class.type_parameters.clone(),";
+  ["compiler/compile_expr.rs::callee_without_wrappers: Expression::NonNull(nn) => nn.expression.as_ref(),";
+   "compiler/compile_expr.rs::callee_without_wrappers: Expression::TypeAssertion(ta) => ta.expression.as_ref(),";
+   "compiler/compile_expr.rs::compile_class_expression_with_name: type_parameters: class.type_parameters.clone(),";
    "compiler/compile_expr.rs::compile_expression: Expression::NonNull(nn) => {";
    "compiler/compile_expr.rs::compile_expression: Expression::TypeAssertion(ta) => {";
    "compiler/compile_stmt.rs::compile_class_expression_for_export: type_parameters: None,";
